@@ -55,11 +55,113 @@ class CGen(genexpr.Gen):
         return self.value(dtype, shape, lo, hi)
 
 
+class DynGen(CGen):
+    """CGen with argument-dependent STRUCTURE.  genexpr keeps every structural parameter (loop length, axis length) a literal,
+    so arguments reach a node only through its data operands.  Here integer scalars computed from arguments ("dynamic ints":
+    Sum(BoolToInt(bool argument)), InRange(int argument), products/minima of those) are used as
+      * the LENGTH of loops (LoopSum with a constant-shape body; LoopConcatenate with a dynamic number of chunks),
+      * the length of a trailing AXIS (InsertAxis(x, N), Range(N), Zeros(.., N), Take(x, Range(N)) = _TakeSlice, elementwise
+        combinations and loop concatenations of those), reduced again by Sum so that the static shape discipline of genexpr holds.
+    With a high constant bias the data operands of such nodes are argument-free: whether the node is cached then hinges on the
+    structural parameter alone."""
+
+    def __init__(self, rng, pdyn=.7, **kw):
+        super().__init__(rng, **kw)
+        self.pdyn = pdyn
+        self.dynpool = {}
+
+    def dynint(self, nmax):
+        """evaluable int scalar with values in [0, nmax], a function of arguments only"""
+        rng = self.rng
+        pool = self.dynpool.setdefault(nmax, [])
+        if pool and rng.random() < .3:
+            self.hit('dynint:(shared)')
+            return rng.choice(pool)
+        c = rng.random()
+        if c < .45 and nmax >= 1:
+            self.hit('dynint:SumBoolToInt')
+            n = ev.Sum(ev.BoolToInt(self.argument(bool, (nmax,))))
+        elif c < .8:
+            self.hit('dynint:InRange')
+            n = ev.InRange(self.argument(int, (), 0, nmax), ev.constant(nmax + 1))
+        elif c < .9 and nmax >= 1:
+            self.hit('dynint:BoolTimesConst')
+            n = ev.Multiply(types.frozenmultiset([ev.BoolToInt(self.argument(bool, ())), ev.constant(nmax)]))
+        else:
+            self.hit('dynint:Minimum')
+            n = ev.Minimum(ev.Sum(ev.BoolToInt(self.argument(bool, (nmax + 1,)))), ev.constant(nmax))
+        pool.append(n)
+        return n
+
+    def _loop(self):
+        if self.rng.random() >= self.pdyn:
+            return super()._loop()
+        self.nloops += 1
+        nmax = self.rng.choice([1, 2, 3, 3])
+        self.hit('dynlen:LoopSum')
+        idx = ev.loop_index('i%d_%d' % (self.nloops, self.rng.getrandbits(16)), self.dynint(nmax))
+        return idx, nmax       # index values stay below nmax: usable wherever an index < nmax is needed
+
+    def ops_for(self, dtype, shape):
+        ops = super().ops_for(dtype, shape)
+        if len(self.loopstack) < 2 and (self.allow is None or 'DynReduce' in self.allow):
+            ops += ['DynReduce'] * max(2, len(ops) // 6)
+        return ops
+
+    def mk_DynReduce(self, dtype, shape, depth):
+        nmax = self.rng.choice([1, 2, 3])
+        N = self.dynint(nmax)
+        if dtype != bool and self.rng.random() < .35:
+            # a dynamic NUMBER of chunks: loop_concatenate over a loop of argument-dependent length
+            c = self.rng.choice([1, 1, 2])
+            self.nloops += 1
+            idx = ev.loop_index('d%d_%d' % (self.nloops, self.rng.getrandbits(16)), N)
+            self.loopstack.append((idx, nmax))
+            try:
+                body = self.array(dtype, shape + (c,), depth-1)
+            finally:
+                self.loopstack.pop()
+            self.hit('dynlen:LoopConcatenate')
+            return ev.Sum(ev.loop_concatenate(body, idx))
+        return ev.Sum(self.dynaxis(dtype, shape, N, nmax, depth-1))
+
+    def dynaxis(self, dtype, prefix, N, nmax, depth):
+        """array of shape prefix + (N,)"""
+        rng = self.rng
+        opts = ['InsertAxis', 'InsertAxis', 'Zeros', 'TakeRange']
+        if dtype != bool: opts += ['Range']
+        if depth > 0:
+            opts += ['Add', 'Multiply']
+            if dtype == float: opts += ['Trig']
+        o = rng.choice(opts)
+        self.hit('dynaxis:' + o)
+        if o == 'InsertAxis':
+            return ev.InsertAxis(self.array(dtype, prefix, depth), N)
+        if o == 'Zeros':
+            return ev.Zeros(self.const_shape(prefix) + (N,), dtype)
+        if o == 'TakeRange':
+            return ev.Take(self.array(dtype, prefix + (nmax,), depth), ev.Range(N))
+        if o == 'Range':
+            e = ev.Range(N)
+            if dtype == float: e = ev.IntToFloat(e)
+            for k in prefix:
+                e = ev.InsertAxis(e, ev.constant(k))
+            return ev.Transpose(e, tuple(range(1, len(prefix) + 1)) + (0,)) if prefix else e
+        if o == 'Trig':
+            return rng.choice([ev.Sin, ev.Cos, ev.Exp])(self.dynaxis(float, prefix, N, nmax, depth-1))
+        a, b = self.dynaxis(dtype, prefix, N, nmax, depth-1), self.dynaxis(dtype, prefix, N, nmax, depth-1)
+        return (ev.Add if o == 'Add' else ev.Multiply)(types.frozenmultiset([a, b]))
+
+
 def gen_program(rng, depth):
     """returns (kind, exprs (tuple of arrays), gen)"""
-    kind = rng.choice(['gen', 'gen', 'tuple', 'constheavy', 'constheavy', 'insertaxis', 'guarded', 'viewconst'])
+    kind = rng.choice(['gen', 'gen', 'tuple', 'constheavy', 'constheavy', 'insertaxis', 'guarded', 'viewconst', 'dynstruct', 'dynstruct', 'dynstruct'])
     if kind == 'gen':
         g = CGen(rng)
+    elif kind == 'dynstruct':
+        # argument-dependent loop lengths / axis lengths around (mostly) argument-free data
+        g = DynGen(rng, constbias=rng.choice([.5, .8, .95, 1.]), share=rng.choice([.25, .5]))
+        depth = max(depth, 2)
     elif kind == 'tuple':
         g = CGen(rng, share=.5)
     elif kind == 'constheavy':
@@ -96,6 +198,13 @@ def gen_program(rng, depth):
         else: e = ev._Get(K, ev.Minimum(cnt, ev.constant(n-1)))
         g.hit('viewconst:' + which)
         exprs = (e,)
+    elif kind == 'dynstruct':
+        exprs = tuple(one(depth) for _ in range(rng.choice([1, 1, 2])))
+        if not any(k.startswith(('dynlen:', 'dynaxis:')) for k in g.hits):
+            # the random descent picked no dynamic structure: put one at the root of an extra result
+            dtype = rng.choice([float, float, int]); shape = tuple(rng.choice([1, 2, 3]) for _ in range(rng.choice([0, 1, 1, 2])))
+            g.pdyn = 1.
+            exprs += ((g.mk_LoopSum if rng.random() < .5 else g.mk_DynReduce)(dtype, shape, depth),)
     else:
         exprs = (one(depth),)
     return kind, exprs, g
@@ -116,6 +225,26 @@ class ProbeGen:
         return r.integers(-8, 9, shape) / 4.
 
 
+def used_arguments(exprs):
+    """names of the Argument nodes occurring anywhere in the trees, found by walking the constructor arguments (`__reduce__`) —
+    deliberately NOT through `Evaluable.arguments`, which is one of the mechanisms under test"""
+    seen = set(); names = set(); stack = list(exprs)
+    while stack:
+        o = stack.pop()
+        if isinstance(o, (tuple, list, frozenset, types.frozenmultiset)):
+            stack.extend(o); continue
+        if isinstance(o, dict):
+            stack.extend(o.values()); continue
+        if not isinstance(o, types.DataClass) or id(o) in seen: continue
+        seen.add(id(o))
+        if isinstance(o, ev.Argument): names.add(o.name)
+        try:
+            stack.extend(o.__reduce__()[1])
+        except Exception:
+            stack.extend(getattr(o, 'dependencies', ()))
+    return names
+
+
 def probe_programs(rng):
     """hand-written programs, one per anchored mechanism, so that every run exercises each of them (random programs hit them only
     with some probability): in-place accumulation next to arguments, views of arguments, cached constants used by rerun code,
@@ -132,7 +261,19 @@ def probe_programs(rng):
     spec = dict(a=(float, (3,), None, None), b=(float, (3,), None, None), A=(float, (3, 3), None, None), m=(bool, (3,), None, None), i=(int, (2,), 0, 2))
     li = ev.loop_index('p', 3)
     fm = types.frozenmultiset
+    # argument-dependent structure: loops and axes whose LENGTH is computed from arguments while the data is argument-free
+    kk = ev.InRange(A('k', (), int), ev.constant(5))
+    ln, lk = ev.loop_index('q', n), ev.loop_index('r', kk)
+    spec = dict(spec, k=(int, (), 0, 4))
     progs = {
+        'loopsum-arglen': (ev.loop_sum(ev.Multiply(fm([ev.InsertAxis(ev.IntToFloat(ln), c3), K])), ln), ev.loop_sum(lk, lk)),
+        'loopsum-arglen-nested': (ev.loop_sum(ev.loop_sum(ev.Add(fm([ev.IntToFloat(ln), ev.Sin(ev.IntToFloat(li))])), li), ln),),
+        'loopconcat-arglen': (ev.loop_concatenate(ev.InsertAxis(ev.Cos(ev.IntToFloat(lk)), ev.constant(2)), lk),
+                              ev.Sum(ev.loop_concatenate(ev.InsertAxis(ln, ev.constant(1)), ln))),
+        'range-zeros-arglen': (ev.Sum(ev.Sin(ev.IntToFloat(ev.Range(kk)))), ev.Sum(ev.Add(fm([ev.Zeros((c3, n), float), ev.InsertAxis(K, n)])))),
+        'takerange-arglen': (ev.Sum(ev.Take(K2, ev.Range(n))), ev.Take(K, ev.Range(n))),
+    }
+    progs.update({
         'add-args': (ev.Add(fm([a, b])),),
         'add-arg-const': (ev.Add(fm([a, K])),),
         'add3': (ev.Add(fm([ev.Add(fm([a, K])), ev.Multiply(fm([b, K]))])),),
@@ -151,11 +292,10 @@ def probe_programs(rng):
                        ev.loop_sum(ev.Multiply(fm([ev.Take(a, li), ev.IntToFloat(li)])), li)),
         'tuple-shared': (ev.Add(fm([a, K])), ev.Multiply(fm([ev.Add(fm([a, K])), b])), K),
         'ravel-unravel': (ev.Ravel(ev.InsertAxis(K, ev.constant(2))), ev.Unravel(ev.Add(fm([ev.constant(numpy.arange(6.)), ev.Ravel(ev.InsertAxis(a, ev.constant(2)))])), ev.constant(2), c3)),
-    }
+    })
     out = []
     for name, exprs in progs.items():
-        used = set()
-        for e in exprs: used |= {x.name for x in e.arguments if isinstance(x, ev.Argument)}
+        used = used_arguments(exprs)
         for simp, opt in ((False, False), (True, True)):
             out.append(('probe:' + name, exprs, ProbeGen(rng, {k: v for k, v in spec.items() if k in used}), simp, opt))
     return out
@@ -467,8 +607,10 @@ def targeted_search(rng, compile_fn, args, newvalue, tries=6):
                 cache = cached_arrays(f)
                 for r in leaves(got[1]):
                     if isinstance(r, numpy.ndarray) and r.flags.writeable and r.size:
-                        if not any(c_.size and numpy.shares_memory(r, c_) for c_ in cache.values()) or first:
-                            held.append(r)   # first-run aliases are the known finding: do not overwrite them here
+                        if not any(c_.size and numpy.shares_memory(r, c_) for c_ in cache.values()):
+                            held.append(r)
+                        elif first:
+                            pass             # first-run aliases are the known finding: do not overwrite them here
                         else:
                             return ('rerun-writable-result-aliases-cache', 'targeted history: a rerun returned a writable array sharing memory with a cached global',
                                     dict(history=hist))
@@ -477,9 +619,9 @@ def targeted_search(rng, compile_fn, args, newvalue, tries=6):
 
 def run(c):
     c.rule = ('programs: random evaluable DAGs from nvh.genexpr (single roots, tuples sharing subterms, constant-heavy, InsertAxis-heavy, Guard-wrapped, '
-              'argument-parametrised views of constant sub-expressions), compiled once with cache_const_intermediates=True (and False for the static check); '
+              'argument-parametrised views of constant sub-expressions, argument-dependent loop lengths / axis lengths around argument-free data), compiled once with cache_const_intermediates=True (and False for the static check); '
               'histories: up to 4 (quick) / 8 (thorough) calls with events repeat / change all / change some / in-place mutation of the same ndarray objects / '
-              'non-contiguous, Fortran, read-only, narrower-dtype and list arguments / wrong shape / missing argument / user fills every writable result with 777; '
+              'non-contiguous, Fortran, read-only, narrower-dtype and list arguments / wrong shape / missing argument / user fills every writable result with 777; plus one alternating history a0 a1 a0 <overwrite> a1 a0 per program; '
               'a case is one (program, history); non-trivial when the generated script caches at least one intermediate or writes in place; distinct by nutils hash + history')
     c.assumptions += ['complex dtype is not generated', 'parallel (fork) code generation is not exercised (maxprocs=1)', 'stats="log" wrapper is not exercised',
                       'Lean model: buffers are named by allocation site; faithful for single-assignment scripts (checked per script: ssa)',
@@ -563,6 +705,16 @@ def run(c):
         if len(c.samples) < 4 and nontrivial:
             c.sample(dict(kind=kind, tree=X.describe(exprs[0], g.args)['tree'][:400], events=[e['event'] for e in hr.events],
                           cached=t0.counts if t0 else None))
+        # ---- dynamic: the alternating history a0 a1 a0 <overwrite results> a1 a0 (stale caches show exactly when an argument
+        # CHANGES between calls of the same function; the random history changes arguments only now and then)
+        if g.args and not any(f[0] in ('call-differs-from-fresh', 'argument-modified') for f in hr.findings):
+            try:
+                found = targeted_search(c.rng, lambda: compile_fn(True), dict(g.args), g.newvalue, tries=2 if kind.startswith('probe:') or kind == 'dynstruct' else 1)
+            except X.Hang:
+                found = None; c.count('history-hang')
+            c.count('alternating-histories')
+            if found is not None:
+                hr.findings.append(found)
         for m in static_meta:
             if m['prog'] == i: m['dyn'] = [f[0] for f in hr.findings]
         for sig, what, detail in hr.findings:
